@@ -338,3 +338,16 @@ THEOREMS = list(THEOREMS) + ['C06_conversion_canonical', 'C06_conversion_const_r
 COQ_EXTRA_TARGETS = list(globals().get('COQ_EXTRA_TARGETS') or []) + ['Conv/FullCorr.vo']
 TABLES = sorted(set(list(globals().get('TABLES') or []) + ['t_classes', 't_ext_tol', 't_stack', 't_filter', 't_time', 't_conv']))
 PARTS = list(PARTS) + [_convfull.FullPart]
+
+
+# source tie, stage A (integrator): _global_slice_subset and _get_changed_class are TRANSLATED from the AST on every run and the
+# hand model (global_slice_subset, changed_class) is proved equal to the translation on stored content (Props/SRCalg.v)
+COQ_PROPS = list(COQ_PROPS) + ['Props/SRCalg.v']
+THEOREMS = list(THEOREMS) + ['SRC_global_slice_subset', 'SRC_changed_class']
+
+
+# source tie, stage B (integrator): _change_class / _simplify are TRANSLATED in state-passing form (t_src_state.py) and the per-key
+# model (change_class_k, simplify_k) is proved to be a refinement of the translation on the stored content (Props/SRCstate.v)
+COQ_PROPS = list(COQ_PROPS) + ['Props/SRCstate.v']
+THEOREMS = list(THEOREMS) + ['SRC_change_class', 'SRC_simplify', 'SRC_to_content_holds']
+TABLES = sorted(set(list(TABLES) + ['t_src_state', 't_content', 't_cli']))
